@@ -26,6 +26,9 @@ type Case struct {
 	InPlace bool   `json:"in_place"`
 	Fill    string `json:"fill"` // all | rand
 	Seed    uint64 `json:"seed"`
+	// Flush: the buffers end exactly at the guard page (AIn/AOut ignored) and their capacity extends over it, as for a
+	// sub-slice of a larger allocation whose neighbour must not be touched (not even read, or rewritten with its own value)
+	Flush bool `json:"flush,omitempty"`
 }
 
 const maxLen = 32<<20 + 4096
@@ -197,10 +200,17 @@ func check(c Case) string {
 	}
 	sIn := arIn.place(c.N, c.AIn, c.AtEnd)
 	sOut := arOut.place(c.N, c.AOut, c.AtEnd)
+	if c.Flush {
+		sIn, sOut = arIn.dataOff+arIn.dataLen-c.N, arOut.dataOff+arOut.dataLen-c.N
+	}
 	arIn.paint(sIn, c.N)
 	arOut.paint(sOut, c.N)
 	in := arIn.mem[sIn : sIn+c.N : sIn+c.N]
 	out := arOut.mem[sOut : sOut+c.N : sOut+c.N]
+	if c.Flush {
+		in = arIn.mem[sIn : sIn+c.N : len(arIn.mem)]
+		out = arOut.mem[sOut : sOut+c.N : len(arOut.mem)]
+	}
 	fill(in, c.Fill, c.Seed)
 	fill(out, "rand", c.Seed^0x9e3779b97f4a7c15)
 	if c.InPlace {
@@ -419,6 +429,18 @@ func TestCheck(t *testing.T) {
 		}
 	}
 
+	// (3a) buffers that end exactly at the guard page while their capacity extends over it
+	for _, n := range []int{2, 6, 14, 30, 32, 34, 46, 48, 62, 64, 66, 94, 96, 98, 126, 130, 1022, 1024, 1026, 1040, 4098, 65536 + 18} {
+		for _, p := range paths {
+			for _, op := range ops {
+				if !mine() {
+					continue
+				}
+				rec.Class("flush-with-guard-page-inside-capacity")
+				do(Case{Path: p, Op: op, C: uint16(0x5a00 + n), N: n, AtEnd: true, Flush: true, Fill: "rand", Seed: uint64(n) + 3})
+			}
+		}
+	}
 	// (3b) multi-MiB lengths (kernels that process long buffers in pieces)
 	huge := []int{1 << 20, 1<<20 + 2, 1 << 22, 1<<22 - 2, 1<<22 + 2, 3 << 20, 1 << 24}
 	if cfg.Thorough() {
